@@ -257,7 +257,7 @@ impl TheoreticalIsotopicPattern {
         }
 
         self.peaks.truncate(stop_index + 1);
-        let ignore_below_threshold = ignore_below_threshold / total;
+        let ignore_below_threshold = ignore_below_threshold * total;
         let mut acc = PeakList::with_capacity(stop_index);
         for mut peak in self.peaks.into_iter() {
             if peak.intensity >= ignore_below_threshold {
